@@ -22,6 +22,9 @@ type Case struct {
 	Out   []string `json:"out"`
 	Extra int      `json:"extra_files"` // complete files applied before the partial one
 	Style string   `json:"style"`       // statement separator style
+	// Crash: the partial progress is the state a crash leaves (the write that records the failing
+	// statement's error is lost), i.e. a partial revision WITHOUT an error text.
+	Crash bool `json:"crash,omitempty"`
 }
 
 func init() {
@@ -78,6 +81,11 @@ func one(cs Case) (why, key string, trace []string) {
 	write(dir, cs, o)
 	w := world.New()
 	w.FailExec = cs.Extra + cs.K + 1
+	if cs.Crash {
+		// writes so far: 3 per complete single-statement file, then 1 (started) + K (per statement);
+		// the next one is the deferred write that would record the error: lose it.
+		w.FailWrite = 3*cs.Extra + 1 + cs.K + 1
+	}
 	ex, err := migrate.NewExecutor(w, dir, w)
 	if err != nil {
 		return "NewExecutor: " + err.Error(), "setup", nil
@@ -85,7 +93,7 @@ func one(cs Case) (why, key string, trace []string) {
 	if err := ex.ExecuteN(context.Background(), 0); err == nil {
 		return "setup: failing run did not fail", "setup", nil
 	}
-	if r := w.Revs[ver]; r == nil || r.Applied != cs.K || r.Error == "" {
+	if r := w.Revs[ver]; r == nil || r.Applied != cs.K || (r.Error == "") != cs.Crash {
 		return fmt.Sprintf("setup: partial revision is %s, want applied=%d", world.SemRev(r), cs.K), "setup", nil
 	}
 	before := world.SemRev(w.Revs[ver])
@@ -94,7 +102,7 @@ func one(cs Case) (why, key string, trace []string) {
 		others = append(others, world.SemRev(w.Revs[fmt.Sprint(f+1)]))
 	}
 	write(dir, cs, cs.Out)
-	w.ExecN, w.WriteN, w.FailExec = 0, 0, 0
+	w.ExecN, w.WriteN, w.FailExec, w.FailWrite = 0, 0, 0, 0
 	start := len(w.Log)
 	var rerr error
 	defer func() { trace = world.EvStrings(w.Log[start:]) }()
@@ -192,6 +200,9 @@ func run(c *rt.Ctx) {
 				for k := 0; k < n; k++ { // k = 0: the first statement failed, nothing is applied yet
 					add := func(name string, out []string) {
 						cases = append(cases, Case{N: n, K: k, Edit: name, Out: out, Extra: extra, Style: style})
+						if k > 0 {
+							cases = append(cases, Case{N: n, K: k, Edit: name, Out: out, Extra: extra, Style: style, Crash: true})
+						}
 					}
 					for i := 0; i < n; i++ {
 						ch := append([]string(nil), o...)
@@ -232,7 +243,10 @@ func run(c *rt.Ctx) {
 		}
 		c.Count("edit:"+kind, 1)
 		c.Count("class:"+cls, 1)
-		c.Eval(rt.Digest(cs.N, cs.K, cs.Edit, cs.Extra, cs.Style, tr), cs.Edit != "none")
+		c.Eval(rt.Digest(cs.N, cs.K, cs.Edit, cs.Extra, cs.Style, cs.Crash, tr), cs.Edit != "none")
+		if cs.Crash {
+			c.Count("setup:crash-state(no error text)", 1)
+		}
 		if why != "" {
 			c.Violation(key, why, cs, map[string]any{"events": tr})
 			return
